@@ -114,6 +114,16 @@ func (fc *funcCtx) applyContract(st *State, ins ssa.Instruction, callee *ssa.Fun
 		}
 	}
 	site := fc.site(ins.Pos(), "call")
+	if callee == fc.fn {
+		// self-recursion: the measure must decrease and be bounded below
+		if con.Decreases != nil {
+			m1 := fc.e.cevalScalar(con.Decreases, env)
+			m0 := fc.e.cevalScalar(con.Decreases, fc.entryEnv(st))
+			fc.oblige(st, "recursion-decreases", site, and(app("<", m1.T, m0.T), app("<=", "0", m0.T)), "recursive call on a smaller measure: "+con.DecSrc)
+		} else if con.Terminates {
+			fc.oblige(st, "recursion-decreases", site, "false", "recursive call without a measure (termination not shown)")
+		}
+	}
 	for i, r := range con.Requires {
 		g := fc.e.cevalBool(r.E, env)
 		fc.oblige(st, "pre@call", site+"/"+clauseLabel(r, i), g, "precondition of "+shortKey(con.Key)+": "+r.Src)
@@ -171,6 +181,8 @@ func (fc *funcCtx) builtin(st *State, ins ssa.Instruction, b *ssa.Builtin, com *
 				return Sc{x.Cap, SInt}
 			}
 			return Sc{x.Len, SInt}
+		case OSeqV:
+			return Sc{x.lenTerm(), SInt}
 		case MapV:
 			n := st.freshConst("maplen", SInt)
 			st.assume(app("<=", "0", n))
